@@ -24,6 +24,8 @@
 EXTENDS Integers, Sequences, FiniteSets, TLC, Json
 
 CONSTANTS Sizes,        \* chunk sizes
+          Single,       \* further sizes, used only for bodies written as one chunk (one DATA frame of
+                        \* exactly that length: both sides of the frame-length varint class boundaries)
           MaxChunks,    \* chunks per body
           Deltas,       \* declared lengths total + dl - 1 for dl in Deltas (1: correct), besides "none"
           Nets          \* network fault scripts (opaque to the model: every description is printed once per script)
@@ -48,7 +50,7 @@ vars == <<par, d, ci, wremain, werr, wire, wsent, rremain, got, trl, rend, out>>
 RECURSIVE Sum(_)
 Sum(s) == IF s = <<>> THEN 0 ELSE Head(s) + Sum(Tail(s))
 
-ChunkLists == UNION {[1..k -> Sizes] : k \in 0..MaxChunks}
+ChunkLists == UNION {[1..k -> Sizes] : k \in 0..MaxChunks} \cup {<<s>> : s \in Single}
 \* declared length = total + dl - 1 for dl in Deltas (cfg files cannot hold negative numbers):
 \* 0 declares one unit less than the body, 1 the right length, 2 one unit more
 ClsFor(c) == {None} \cup {x \in {Sum(c) + dl - 1 : dl \in Deltas} : x >= 0}
